@@ -42,6 +42,8 @@ SKIP_RULES = {
                   "constructor pickle.Unpickler.__init__ (the file object); its model is the initial machine state of Vm.v",
     "self": "the unpickler object is represented by its one attribute self.safe_to_import",
     "pass": "`pass` has no effect",
+    "logging": "a statement `logger.<level>(...)` on the module's logging.getLogger(__name__) object, with arguments the translator "
+               "accepts as effect-free expressions, only writes a log record",
 }
 
 PICKLE_FAMILY = {"pickle", "_pickle", "cPickle", "_compat_pickle", "dill", "cloudpickle", "shelve", "marshal", "copyreg"}
@@ -526,6 +528,13 @@ class Fn:
         if isinstance(s, ast.Expr) and isinstance(s.value, ast.Constant) and isinstance(s.value.value, str):
             self.tr.skipped.append(("docstring", self.where))
             return True
+        if isinstance(s, ast.Expr) and isinstance(s.value, ast.Call) and isinstance(s.value.func, ast.Attribute) \
+                and isinstance(s.value.func.value, ast.Name) and s.value.func.value.id == "logger" and self.tr.logger_ok \
+                and s.value.func.attr in ("debug", "info", "warning", "error", "critical", "exception") and not s.value.keywords:
+            for a in s.value.args:
+                self.pure(a)            # every argument must itself be a white-listed effect-free expression
+            self.tr.skipped.append(("logging", self.where))
+            return True
         if isinstance(s, ast.Expr) and self.where.endswith("__init__") and isinstance(s.value, ast.Call):
             c = s.value
             if isinstance(c.func, ast.Attribute) and c.func.attr == "__init__" and isinstance(c.func.value, ast.Call) \
@@ -735,6 +744,16 @@ class Translator:
             if isinstance(s, ast.Assign) and len(s.targets) == 1 and isinstance(s.targets[0], ast.Name) \
                     and isinstance(s.value, ast.Constant) and isinstance(s.value.value, str) and len(binds.get(s.targets[0].id, [])) == 1:
                 self.str_consts[s.targets[0].id] = s.value.value
+        # logger = logging.getLogger(__name__), bound once; `logging` bound once by `import logging`
+        self.logger_ok = False
+        for s in self.tree.body:
+            if isinstance(s, ast.Assign) and len(s.targets) == 1 and isinstance(s.targets[0], ast.Name) and s.targets[0].id == "logger":
+                v = s.value
+                lb = binds.get("logging", [])
+                self.logger_ok = (len(binds.get("logger", [])) == 1 and len(lb) == 1 and isinstance(lb[0], ast.Import)
+                                  and any(a.name == "logging" and a.asname is None for a in lb[0].names)
+                                  and isinstance(v, ast.Call) and isinstance(v.func, ast.Attribute) and v.func.attr == "getLogger"
+                                  and isinstance(v.func.value, ast.Name) and v.func.value.id == "logging")
         # NONE_TYPE = type(None), bound once
         self.none_type_ok = False
         for s in self.tree.body:
